@@ -9,6 +9,7 @@ import DebInspector.Props.C03
 import DebInspector.Props.C04
 import DebInspector.Props.C15
 import DebInspector.Props.C17
+import DebInspector.Props.C20
 
 open Proto
 
@@ -22,6 +23,8 @@ def dispatch (op : String) (v : Val) : Option Val :=
   | "C04" => Props.C04.check.run v
   | "C15" => Props.C15.check.run v
   | "C15m" => Props.C15.checkM.run v
+  | "C20" => Props.C20.check.run v
+  | "C20p" => Props.C20.checkPartial.run v
   | "C17a" => Props.C17.checkA.run v
   | "C17b" => Props.C17.checkB.run v
   | "C17c" => Props.C17.checkC.run v
